@@ -5,14 +5,14 @@
  *   data_harness run      < script            > transcript of the implementation
  *   data_harness resolve  < model transcript  > model transcript with symbolic values resolved
  *
- * Script grammar (one op per line; <o> = object 0 or 1; values "re,im" integers):
+ * Script grammar (one op per line; <o> = object 0 .. NOBJ-1 (NOBJ = 4 slots); values "re,im" integers):
  *   <o> init t r c f | resize t r c f | settype t | addfreq x | getfreq i | setfreq i x | fmin |
  *       fmax | getfv | setfv N x.. | getcell f r c | setcell f r c v | getmat f | setmat f N v.. |
  *       gettovec r c | setfromvec r c N v.. | getz0 p | setz0 p v | setallz0 v | getz0v |
  *       setz0v N v.. | hasfz0 | getfz0 f p | setfz0 f p v | getfz0v f | setfz0v f N v.. | dims |
  *       meta | setft k | setfmt k | setfprec p | setdprec p
  *   conv <src> <dst> <newtype>
- *   reset                         (free both objects, allocate two fresh ones)
+ *   reset                         (free all objects, allocate fresh ones)
  *   <o> allocinit t r c f         (vnadata_free of object o, then vnadata_alloc_and_init; when that
  *                                  returns NULL the slot receives a fresh vnadata_alloc object)
  *   <o> typename k                (vnadata_get_type_name(k): payload "s <name>" or "s NULL")
@@ -66,6 +66,8 @@ static const char *format_table[] = { "Sri", "SdB,Zri", "Zinma", "PRC,IL", "ri",
  * letter, trailing garbage, trailing comma */
 static const char *bad_format_table[] = { "", "Sri,,Zma", "zindb", "q", "Smax", "Sri," };
 #define NBADFORMATS ((int)(sizeof(bad_format_table) / sizeof(bad_format_table[0])))
+
+#define NOBJ 4		/* object slots (the identifiers 0..3 of TwoObjModel.kstep) */
 
 static int cb_count;
 static void error_fn(const char *message, void *arg, vnaerr_category_t category)
@@ -297,12 +299,12 @@ static void rvec(const double complex *p, int n)
 static int run(void)
 {
     static char line[1 << 16];
-    vnadata_t *vd[2];
+    vnadata_t *vd[NOBJ];
 
-    vd[0] = vnadata_alloc(error_fn, NULL);
-    vd[1] = vnadata_alloc(error_fn, NULL);
-    if (vd[0] == NULL || vd[1] == NULL) {
-	return 2;
+    for (int i = 0; i < NOBJ; ++i) {
+	if ((vd[i] = vnadata_alloc(error_fn, NULL)) == NULL) {
+	    return 2;
+	}
     }
     while (fgets(line, sizeof(line), stdin) != NULL) {
 	const char *first, *name;
@@ -318,10 +320,12 @@ static int run(void)
 	errno = 0;
 	cb_count = 0;
 	if (strcmp(first, "reset") == 0) {
-	    vnadata_free(vd[0]);
-	    vnadata_free(vd[1]);
-	    vd[0] = vnadata_alloc(error_fn, NULL);
-	    vd[1] = vnadata_alloc(error_fn, NULL);
+	    for (int i = 0; i < NOBJ; ++i) {
+		vnadata_free(vd[i]);
+		if ((vd[i] = vnadata_alloc(error_fn, NULL)) == NULL) {
+		    return 2;
+		}
+	    }
 	    errno = 0;
 	    rint_(0);
 	    digest(0, vd[0]);
@@ -329,12 +333,22 @@ static int run(void)
 	}
 	if (strcmp(first, "conv") == 0) {
 	    int a = nint(), b = nint(), nt = nint();
-	    int rc = vnadata_convert(vd[a], vd[b], (vnadata_parameter_type_t)nt);
+	    int rc;
+
+	    if (a < 0 || a >= NOBJ || b < 0 || b >= NOBJ) {
+		fprintf(stderr, "harness: bad object index\n");
+		return 3;
+	    }
+	    rc = vnadata_convert(vd[a], vd[b], (vnadata_parameter_type_t)nt);
 	    rint_(rc);
 	    digest(b, vd[b]);
 	    continue;
 	}
 	o = atoi(first);
+	if (o < 0 || o >= NOBJ) {
+	    fprintf(stderr, "harness: bad object index %s\n", first);
+	    return 3;
+	}
 	vdp = vd[o];
 	name = next();
 	exact_buffer = 0;
@@ -528,8 +542,9 @@ static int run(void)
 	digest(o, vdp);
     }
     fflush(stdout);
-    vnadata_free(vd[0]);
-    vnadata_free(vd[1]);
+    for (int i = 0; i < NOBJ; ++i) {
+	vnadata_free(vd[i]);
+    }
     return 0;
 }
 
